@@ -439,7 +439,7 @@ theorem src_estimator_cloned :
     relation `C19.cr_1d_path_dead`). -/
 theorem src_fit_history_reads :
     fitHistoryReads .TO = [] ∧ fitHistoryReads .EG = [] ∧ fitHistoryReads .GS = [] ∧
-    fitHistoryReads .CR = ["lookup_"] := by decide +kernel
+    fitHistoryReads .CR = ["lookup_ in _split_X"] := by decide +kernel
 
 /-- attributes `fit` reads that only `__init__` sets and `get_params` does not report: GridSearch's
     `objective_weight` (= 1 − constraint_weight at construction; `set_params(constraint_weight=…)` does not update it) -/
